@@ -595,6 +595,7 @@ func (r *collection) addService(service any, lifetime Lifetime, opts ...AddOptio
 		}
 
 		// Register each field as a separate service that points to the same constructor
+		outputs := make([]*Descriptor, 0, len(descriptor.resultFields))
 		for _, field := range descriptor.resultFields {
 			// Create a descriptor for each field type
 			fieldDescriptor := &Descriptor{
@@ -612,6 +613,7 @@ func (r *collection) addService(service any, lifetime Lifetime, opts ...AddOptio
 				resultFields:    descriptor.resultFields,
 				isParamObject:   descriptor.isParamObject,
 				paramFields:     descriptor.paramFields,
+				outputName:      field.Name,
 			}
 
 			// Register the field descriptor
@@ -623,6 +625,13 @@ func (r *collection) addService(service any, lifetime Lifetime, opts ...AddOptio
 					Cause:       err,
 				}
 			}
+
+			outputs = append(outputs, fieldDescriptor)
+		}
+
+		// Whichever field is resolved first, the constructor's other outputs are stored under their own registrations
+		for _, output := range outputs {
+			output.outputs = outputs
 		}
 
 		// Don't register the result object type itself
@@ -641,6 +650,7 @@ func (r *collection) addService(service any, lifetime Lifetime, opts ...AddOptio
 
 		// If we have multiple non-error returns, register each as a separate service
 		if len(nonErrorReturns) > 1 {
+			outputs := make([]*Descriptor, 0, len(nonErrorReturns))
 			for i, ret := range nonErrorReturns {
 				// Create a descriptor for each return type
 				typeDescriptor := &Descriptor{
@@ -675,7 +685,15 @@ func (r *collection) addService(service any, lifetime Lifetime, opts ...AddOptio
 						Cause:       err,
 					}
 				}
+
+				outputs = append(outputs, typeDescriptor)
 			}
+
+			// Whichever return value is resolved first, the others are stored under their own registrations
+			for _, output := range outputs {
+				output.outputs = outputs
+			}
+
 			return nil
 		}
 	}
